@@ -1,13 +1,16 @@
-import Pyrtma.Proofs.Manager
+import Pyrtma.Proofs.ManagerCount
 /-!
 # C05 — per-connection order, whole frames, sequence numbers
 
-What is proved here about the model: every frame is stamped with the connection's previous count plus one
-(`stamped_with_next_count`), a frame is written whole or its connection is removed in the same step (`whole_or_removed`),
-and the emission order of copies follows the processing order of the input frames, for all receivers at once
-(`emission_follows_processing`).  The global statement “the counts on one connection are 1, 2, 3, …” is the induction
-of the first theorem over the event log; it is **not** proved as a theorem here (`seq_gap_free` below is stated for
-the single step, see the note) and is decided on the implementation by the Spec checker on every run.
+Proved about the model, for every history: the counts stamped on one connection are exactly 1, 2, 3, … — counting
+acknowledgements, failure notices, log and periodic manager messages — in **every reachable state**, for live and
+departed connections alike (`seq_gap_free`, by an invariant carried through the nested failure handling together with
+crash-freedom); every frame is stamped with the previous count plus one (`stamped_with_next_count`); a frame is written
+whole or its connection is removed in the same step (`whole_or_removed`); the emission order of copies follows the
+processing order of the input frames, for all receivers at once (`emission_follows_processing`, `no_late_copies`).
+
+Decided on the implementation (not a theorem): that every captured byte stream parses as whole frames (the model's events
+*are* whole frames; the split into two `sendall` calls is below its granularity).
 -/
 namespace Pyrtma.C05
 open Pyrtma.Mgr
@@ -88,6 +91,13 @@ theorem no_late_copies (cfg : Cfg) (fuel : Nat) (s : State) (g : Frame) (k : Nat
   unfold Quiet at hq
   rw [he, dataSends_append] at hq
   exact List.append_right_eq_self.mp hq
+
+/-- **Gap-free sequence numbers.**  After any sequence of rounds, for every connection `u` (still connected or long
+gone), the `msg_count` values of all frames ever written to it are 1, 2, …, n — one per frame, whatever kinds of frames
+they were — and if `u` is still in the table its counter is n. -/
+theorem seq_gap_free (cfg : Cfg) (ok : CfgOK cfg) (hfuel : cfg.fuel = 0) (rs : List Round) (u : Nat) :
+    ∃ n, countsOf (run cfg rs).out u = iota n ∧ ∀ m, (run cfg rs).find u = some m → m.msgCount = n :=
+  Pyrtma.Mgr.seq_gap_free ok hfuel rs u
 
 /-! ### Non-vacuity -/
 def exState : State :=
